@@ -257,7 +257,7 @@ Theorem C01_tool_whole_rs :
   forall (algo : N) (mb : nat), mb <= 255 -> forall hash hlen, (forall m, length (hash m) = hlen) ->
   forall bdec (o : option byte) fast ik ies, 1 <= ik -> ik + ies <= 255 -> forall idec,
   PipelineP.dec_complete_hyp (option byte) (pchk algo mb) bdec (penc algo mb) o (pcap mb) (pwf mb) ->
-  forall mu, (forall c, 1 <= mu c <= mb) -> (forall c, 1 <= hlen + (mb - mu c)) -> forall window,
+  forall mu, (forall s c, 1 <= mu s c <= mb) -> (forall s c, 1 <= hlen + (mb - mu s c)) -> forall window,
   let intra := C03Inst.intra_w algo ik ies idec in
   let fenc := C03Inst.fenc_w algo ik ies in
   let track := C03Inst.track_w algo mb hash mu in
